@@ -17,11 +17,12 @@ import (
 func init() { suites["recon"] = suiteRecon }
 
 // suiteRecon: C06 — the decoder's picture equals the encoder's own reconstruction.
-//   (a) FilterStrength 0: decoded Y/Cb/Cr == reconstruction planes on the visible area (Go decoder);
-//   (b) any filter strength: the Lean RFC-6386 decoder's PRE-FILTER planes (op vp8raw) == reconstruction,
-//       when the driver provides that op (otherwise counted as skipped).
+//
+//	(a) FilterStrength 0: decoded Y/Cb/Cr == reconstruction planes on the visible area (Go decoder);
+//	(b) any filter strength: the Lean RFC-6386 decoder's PRE-FILTER planes (op vp8raw) == reconstruction,
+//	    when the driver provides that op (otherwise counted as skipped).
 func suiteRecon(rep *Report) error {
-	rep.Rule = "lossy Encode over image class (incl. every 19th case: >= 510 macroblocks of a periodic texture with one or two flat macroblocks, Segments 2..4, SNS > 0 - the segment map is then dropped) x size (incl. non-multiples of 16, 1x1, 320x320, 368x368, 512x512, 1024x144) x Quality x Method 0..6 x Segments 1..4 x Partitions 0..3 x Pass x SNS/filter settings x presets x QMin/QMax x TargetSize/TargetPSNR x sharp YUV, on 1 CPU and 4 CPUs; the encoder's reconstruction planes (hook) are compared with (a) webp.Decode's YCbCr planes when FilterStrength=0 and (b) the Lean spec decoder's pre-loop-filter planes for any strength; decoded size must equal the source size; non-trivial = image not flat"
+	rep.Rule = "lossy Encode over image class (incl. every 19th case: >= 510 macroblocks of a periodic texture with one or two flat macroblocks, Segments 2..4, SNS > 0 - the segment map is then dropped) x size (incl. non-multiples of 16, 1x1, 320x320, 368x368, 512x512, 1024x144) x Quality x Method 0..6 x Segments 1..4 x Partitions 0..3 x Pass x SNS/filter settings x presets x QMin/QMax x TargetSize/TargetPSNR x sharp YUV, plus a rate-control sweep (40 cases: pictures with content of 17x33..64x64, TargetSize 200..4000 or TargetPSNR 25..45, Pass 1..10, Method 0..6, Segments 1..4, three of five with FilterStrength 0), on 1 CPU and 4 CPUs; the encoder's reconstruction planes (hook) are compared with (a) webp.Decode's YCbCr planes when FilterStrength=0 and (b) the Lean spec decoder's pre-loop-filter planes for any strength; decoded size must equal the source size; non-trivial = image not flat"
 	defer runtime.GOMAXPROCS(runtime.GOMAXPROCS(0))
 	n := 260
 	if rep.Tier == "thorough" {
@@ -45,7 +46,13 @@ func suiteRecon(rep *Report) error {
 	}
 	var pends []pend
 	var infoLines, infoDesc []string
-	for i := 0; i < n; i++ {
+	// rate-control sweep: nSweep extra cases that all run the TargetSize / TargetPSNR search (several passes with
+	// a new quantiser each; the frame header must announce the quantisers of the pass whose coefficients are kept)
+	nSweep := 40
+	if rep.Tier == "thorough" {
+		nSweep = 1200
+	}
+	for i := 0; i < n+nSweep; i++ {
 		r := NewRNG(rep.Seed, uint64(i))
 		sz := sizes[r.Intn(len(sizes))]
 		if i%41 == 0 {
@@ -106,6 +113,38 @@ func suiteRecon(rep *Report) error {
 			o.FilterSharpness = r2.Intn(8)
 			procs = []int{1, 4}[r2.Intn(2)]
 			rep.Count("class:texture-with-odd-macroblock")
+		}
+		if i >= n {
+			// small pictures with content (no flat ones), TargetSize 200..4000 or TargetPSNR 25..45, Pass 1..6 / 8 / 10
+			r2 := NewRNG(rep.Seed, 0x0610000+uint64(i))
+			sz = [][2]int{{17, 33}, {31, 64}, {48, 48}, {64, 64}, {33, 17}, {40, 56}, {64, 40}, {24, 24}}[r2.Intn(8)]
+			cls = []int{ClsPhoto, ClsNoise, ClsPhoto, ClsGradient, ClsPal256, ClsPhoto}[r2.Intn(6)]
+			acls = AlphaNone
+			img = GenImage(r2, sz[0], sz[1], cls, acls)
+			idesc = imgDesc(sz[0], sz[1], cls, acls)
+			o = webp.DefaultOptions()
+			o.Quality = float32([]int{30, 50, 60, 75, 90}[r2.Intn(5)])
+			o.Method = r2.Intn(7)
+			o.Segments = 1 + r2.Intn(4)
+			o.Partitions = r2.Intn(2)
+			o.SNSStrength = []int{0, 50, 100}[r2.Intn(3)]
+			o.Pass = []int{1, 2, 3, 4, 5, 6, 6, 8, 10, 10}[r2.Intn(10)]
+			o.FilterStrength = []int{0, 0, 0, 20, 60}[r2.Intn(5)]
+			o.FilterSharpness = r2.Intn(8)
+			if (i-n)%5 < 3 {
+				// 200..4000, mostly within reach of the picture (about 0.3 .. 1.6 bytes per pixel)
+				o.TargetSize = 200 + r2.Intn(3801)
+				if r2.Chance(2, 3) {
+					px := sz[0] * sz[1]
+					o.TargetSize = mini(4000, maxi(200, px*3/10+r2.Intn(px*13/10+1)))
+				}
+				rep.Count("sweep:target-size")
+			} else {
+				o.TargetPSNR = float32(25 + r2.Intn(21))
+				rep.Count("sweep:target-psnr")
+			}
+			procs = []int{1, 1, 4}[r2.Intn(3)]
+			rep.Count(fmt.Sprintf("sweep:pass=%d", o.Pass))
 		}
 		runtime.GOMAXPROCS(procs)
 		desc := fmt.Sprintf("%s q=%v m=%d seg=%d part=%d pass=%d sns=%d fs=%d sharp=%d ft=%d qmin=%d qmax=%d ts=%d psnr=%v syuv=%v pre=%d procs=%d",
